@@ -395,6 +395,10 @@ struct event_base {
 
 	/** "Prepare" and "check" watchers. */
 	struct evwatch_list watchers[EVWATCH_MAX];
+	/** While event_base_loop walks a watcher list: the watcher it will
+	 * invoke after the running one (NULL otherwise).  Kept here so that
+	 * evwatch_free can step it over a watcher that is being freed. */
+	struct evwatch *watcher_next;
 };
 
 struct event_config_entry {
